@@ -2748,13 +2748,26 @@ class Mailbox:
                 (time.monotonic() - start_time),
             )
             try:
-                max_msg_key = self.msg_keys[-1]
-                uid_vv, uid_max = self.get_uid_from_msg(max_msg_key)
-                if uid_vv is None or uid_vv != self.uid_vv or uid_max is None:
-                    raise MailboxInconsistency(
-                        f"Mailbox '{self.name}': uid_vv: {self.uid_vv}, msg "
-                        f"key: {max_msg_key}, uid_vv:uid: {uid_vv}:{uid_vv}"
-                    )
+                if self.msg_keys:
+                    max_msg_key = self.msg_keys[-1]
+                    uid_vv, uid_max = self.get_uid_from_msg(max_msg_key)
+                    if (
+                        uid_vv is None
+                        or uid_vv != self.uid_vv
+                        or uid_max is None
+                    ):
+                        raise MailboxInconsistency(
+                            f"Mailbox '{self.name}': uid_vv: {self.uid_vv}, "
+                            f"msg key: {max_msg_key}, uid_vv:uid: "
+                            f"{uid_vv}:{uid_vv}"
+                        )
+                else:
+                    # An empty mailbox. No UID exists - which is fine for a
+                    # UID COPY, as it is for UID FETCH and UID STORE - but
+                    # the set still wants a maximum: the one
+                    # msg_set_to_msg_seq_set() uses in this case.
+                    #
+                    uid_max = 1
 
                 seq_max = len(self.msg_keys)
 
